@@ -590,7 +590,10 @@ fn run_script(seed: u64, idx: u64, steps: usize) -> Vec<Rec> {
                 disks1[ws].iter().map(|(k, v)| format!("{k}={}", String::from_utf8_lossy(&v.1).trim())).collect::<Vec<_>>(),
                 trace.events, res.err.replace('\n', " | "));
         }
-        let resp = format!("{status} {ev} d={disk_after} o={o_after}");
+        // see Drv/C40.lean: files written without a preceding snapshot over a disk that differed from tree_state
+        let dirty = wss_parts.iter().any(|p| p.0 == ws && p.1 != p.2);
+        let d_tok = if dirty && ev.contains('W') && !ev.contains('S') { "?".to_string() } else { disk_after.to_string() };
+        let resp = format!("{status} {ev} d={d_tok} o={o_after}");
         let mut rec = Rec::new(Some(req.clone()), resp);
         rec.tallies.push(("command", cmd_name.clone()));
         rec.tallies.push(("status", if stale { "stale".into() } else if res.code == 0 { "ok".into() } else { "command error".into() }));
@@ -776,11 +779,13 @@ fn absent_workspace_scenario(seed: u64) -> Rec {
 
 pub fn run(cfg: &Cfg, out: &mut Out) {
     let scripts = cfg.extra.iter().find_map(|a| a.strip_prefix("repos=").and_then(|n| n.parse().ok())).unwrap_or(cfg.n(150, 2000) as usize);
-    if let Some(one) = cfg.extra.iter().find_map(|a| a.strip_prefix("script=").and_then(|n| n.parse::<u64>().ok())) {
-        // development aid: run a single script
-        for rec in run_script(cfg.seed, one, 14) {
-            if let Some(req) = &rec.req {
-                out.case(req, &rec.resp);
+    if let Some(list) = cfg.extra.iter().find_map(|a| a.strip_prefix("script=")) {
+        // development aid: run the listed scripts only
+        for one in list.split(',').filter_map(|n| n.parse::<u64>().ok()) {
+            for rec in run_script(cfg.seed, one, 14) {
+                if let Some(req) = &rec.req {
+                    out.case(req, &rec.resp);
+                }
             }
         }
         return;
